@@ -259,8 +259,11 @@ def make_lemma(idx, case, items):
     if calls is None: calls = []
     with NormalPatch(zs) as npatch, FunPatch(case.get("patch", []), calls, case.get("patch_methods", [])):
         try:
-            f = getattr(obj, fn) if obj is not None else case["callable"]
-            out = f(*case.get("args", []), **case.get("kwargs", {}))
+            if obj is not None and isinstance(getattr(type(obj), fn, None), property):
+                out = getattr(obj, fn)                   # a @property: evaluated by attribute access
+            else:
+                f = getattr(obj, fn) if obj is not None else case["callable"]
+                out = f(*case.get("args", []), **case.get("kwargs", {}))
             exc = None
         except RuntimeError:
             raise
